@@ -363,6 +363,10 @@ class ScoreRhythmStream(Stream):
             if not grids:
                 continue
             chords = [{"elem": rng.randrange(7), "dur": tat * rng.randrange(1, 13)} for _c in range(rng.randrange(1, 6))]
+            if rng.random() < 0.4:
+                # parts that rest for whole chords (absent from them) or enter late: the grid keeps running under the silence
+                for c in chords:
+                    c["absent"] = [nm for nm in grids if rng.random() < 0.35]
             yield {"tatum": tat, "grids": grids, "chords": chords, "mel": rng.randrange(1, 6)}
 
     def impl(self, case):
@@ -374,7 +378,8 @@ class ScoreRhythmStream(Stream):
             mel = Melody([Note("s", i % 7, i // 7, 1) for i in range(case["mel"])])
             chords = []
             for c in case["chords"]:
-                ch = Chord(c["elem"], tonality=Tonality(0))(**{nm: mel.set_duration(F(c["dur"])) for nm in metrics})
+                ch = Chord(c["elem"], tonality=Tonality(0))(**{nm: mel.set_duration(F(c["dur"])) for nm in list(metrics) + ["cello__5"]
+                                                                  if nm not in c.get("absent", [])})
                 chords.append(ch)
             sc = Score(chords)
             res = ScoreRhythm(metrics)(sc)
@@ -383,7 +388,7 @@ class ScoreRhythmStream(Stream):
                 t, ons = F(0), []
                 for ch in res.chords:
                     tt = t
-                    for x in ch.score[nm].notes:
+                    for x in (ch.score[nm].notes if nm in ch.score else []):
                         if x.type not in ("r", "l"):
                             ons.append(tt)
                         tt += F(x.duration)
@@ -400,9 +405,13 @@ class ScoreRhythmStream(Stream):
         for (cd, parts), c in zip(r["durs"], case["chords"]):
             if cd != F(c["dur"]) or any(d != cd for d in parts.values()):
                 return {"sig": "score-rhythm-duration", "msg": f"chord of {c['dur']}: {cd} {parts}"}
+        starts, t0 = [], F(0)
+        for c in case["chords"]:
+            starts.append((t0, t0 + F(c["dur"]), c.get("absent", []))); t0 += F(c["dur"])
         for nm, g in case["grids"].items():
             arr = g["array"]
-            want = [i * tat for i in range(int(total / tat)) if arr[i % len(arr)] == 1]
+            want = [i * tat for i in range(int(total / tat)) if arr[i % len(arr)] == 1
+                    and not any(a <= i * tat < b and nm in ab for a, b, ab in starts)]
             if r["onsets"][nm] != want:
                 return {"sig": "score-rhythm-onsets", "msg": f"part {nm}, grid {arr}: notes at {[str(x) for x in r['onsets'][nm]][:12]}, pulses at {[str(x) for x in want][:12]}"}
         return None
@@ -411,7 +420,7 @@ class ScoreRhythmStream(Stream):
         return len(case["chords"]) > 1
 
     def hist_keys(self, case, r):
-        return [f"parts={len(case['grids'])}", f"chords={len(case['chords'])}"]
+        return [f"parts={len(case['grids'])}", f"chords={len(case['chords'])}", "some-part-absent" if any(c.get("absent") for c in case["chords"]) else "all-parts-present"]
 
 def streams():
     return [Apply(), Euclid(), Algebra(), ApplyNoExpand(), ScoreRhythmStream()]
